@@ -69,7 +69,13 @@ func (m *c20Monitor) Init(r *Run) {
 	m.Accepted, m.Rejected, m.statDone = map[string]int{}, map[string]int{}, map[string]bool{}
 }
 
-func resKey(op, taskAddr string, id uint64) string { return fmt.Sprintf("%s|%s|%d", op, taskAddr, id) }
+func resKey(op, taskAddr string, id uint64) string {
+	// the operator in its canonical spelling: bech32 also accepts an all-upper-case form
+	if acc, err := sdk.AccAddressFromBech32(op); err == nil {
+		op = acc.String()
+	}
+	return fmt.Sprintf("%s|%s|%d", op, taskAddr, id)
+}
 
 // modelSelfUSD recomputes an operator's self-delegated USD value (x1e18) over a set of assets from
 // the ledger: per asset trunc18(tokens(self share) * price / 10^(asset decimals + price decimals)).
@@ -252,6 +258,24 @@ func (m *c20Monitor) AfterTx(r *Run, ctx sdk.Context, tx *TxResult) {
 			m.fail(r, "task-created-only-by-registered-task-contract", "no-avs", fmt.Sprintf("%s: task created for %s which is no AVS's task address", tx.Op, a.TaskAddr))
 			return
 		}
+		// the task's snapshot of opted-in operators (the base of its non-signer list) holds exactly
+		// the operators that are opted into the AVS now: not those that have opted out again
+		if ti, err := k.GetTaskInfo(ctx, fmt.Sprint(want), a.TaskAddr); err == nil && ti != nil {
+			var wantOps []string
+			for i := 0; i < r.W.Cfg.NOps; i++ {
+				o := r.W.Op(i).Addr.String()
+				if r.Node.App.OperatorKeeper.IsOptedIn(ctx, o, pre.avsByTask) {
+					wantOps = append(wantOps, o)
+				}
+			}
+			got := append([]string{}, ti.OptInOperators...)
+			sort.Strings(got)
+			sort.Strings(wantOps)
+			if strings.Join(got, ",") != strings.Join(wantOps, ",") {
+				m.fail(r, "task-snapshot-holds-the-opted-in-operators", "opted-out-included", fmt.Sprintf("%s: task %d of %s records the opted-in operators %v; opted into %s at that moment are %v", tx.Op, want, a.TaskAddr, got, pre.avsByTask, wantOps))
+				return
+			}
+		}
 		r.State("c20:task")
 	case "blsreg":
 		if tx.OK {
@@ -263,7 +287,10 @@ func (m *c20Monitor) AfterTx(r *Run, ctx sdk.Context, tx *TxResult) {
 		now := k.IsExistTaskChallengedInfo(ctx, a.Operator, a.TaskAddr, a.TaskID)
 		if !now || pre.challenged {
 			if tx.OK && !now {
-				r.Probe("c20_challenge_reported_success_without_record")
+				// the precompile reported the challenge as accepted (observable output), yet nothing is
+				// recorded: an acceptance outside every stated condition
+				m.fail(r, "challenge-reported-as-accepted-is-recorded", "no-record", fmt.Sprintf("%s: the challenge of %s returned success in epoch %d but no challenge is recorded", tx.Op, resKey(a.Operator, a.TaskAddr, a.TaskID), pre.curEpoch))
+				return
 			}
 			if pre.challenged {
 				// a second challenge must not replace the recorded one
